@@ -711,6 +711,124 @@ theorem transformProba_spec {fwd : Dict β Nat} (h : Fitted fwd) (rows : List (L
 
 end classes
 
+/-! ### the label branch with `closest=True` -/
+
+section closest
+variable {κ β : Type} [DecidableEq κ]
+
+omit [DecidableEq κ] in
+theorem foldl_pick_mem (sel : κ → κ → Bool) (ks : List κ) (k : κ) :
+    ks.foldl (fun best k' => if sel k' best then k' else best) k ∈ k :: ks := by
+  induction ks generalizing k with
+  | nil => simp
+  | cons a as ih =>
+    simp only [List.foldl_cons]
+    have := ih (if sel a k then a else k)
+    simp only [List.mem_cons] at this ⊢
+    rcases this with h | h
+    · rw [h]; by_cases c : sel a k = true <;> simp [c]
+    · exact Or.inr (Or.inr h)
+
+omit [DecidableEq κ] in
+/-- `mapE` is monotone in its cell function: where `f` accepts a cell, `g` returns the same -/
+theorem mapE_mono {α γ : Type} (f g : α → Except Err γ) (hfg : ∀ a b, f a = .ok b → g a = .ok b)
+    (l : List α) (r : List γ) (h : mapE f l = .ok r) : mapE g l = .ok r := by
+  induction l generalizing r with
+  | nil => simpa [mapE] using h
+  | cons a as ih =>
+    simp only [mapE] at h ⊢
+    cases ha : f a with
+    | error e => simp [ha] at h
+    | ok c =>
+      simp only [ha] at h
+      cases hm : mapE f as with
+      | error e => simp [hm] at h
+      | ok t =>
+        simp only [hm] at h
+        rw [hfg a c ha, ih t hm]
+        exact h
+
+omit [DecidableEq κ] in
+/-- the concrete nearest-key search returns a key of a non-empty dictionary -/
+theorem nearest_mem (closer : κ → κ → κ → Bool) (d : Dict κ β) (u : κ) (h : d ≠ []) :
+    nearest closer d u ∈ d.keys := by
+  unfold nearest
+  cases hk : d.keys with
+  | nil =>
+    cases d with
+    | nil => exact absurd rfl h
+    | cons p ps => simp [Dict.keys] at hk
+  | cons k ks => exact foldl_pick_mem (fun k' best => closer u k' best) ks k
+
+theorem lookupC_seen (near : Dict κ β → κ → κ) (d : Dict κ β) (u : κ) (c : β)
+    (h : d.get? u = some c) : lookupC near d u = .ok c := by
+  simp [lookupC, h]
+
+/-- where `closest=False` succeeds, `closest=True` returns the same cell -/
+theorem lookupC_of_lookupE (near : Dict κ β → κ → κ) (d : Dict κ β) (u : κ) (c : β)
+    (h : lookupE d u = .ok c) : lookupC near d u = .ok c := by
+  cases hg : d.get? u with
+  | none => simp [lookupE, hg] at h
+  | some v =>
+    simp only [lookupE, hg] at h
+    cases h
+    exact lookupC_seen near d u _ hg
+
+/-- a cell is never rejected when the search returns a key; the result is a code of the dictionary,
+namely the code of the label itself when it is a key and of `near d u` otherwise -/
+theorem lookupC_total (near : Dict κ β → κ → κ) (d : Dict κ β) (u : κ)
+    (hn : near d u ∈ d.keys) :
+    ∃ c, lookupC near d u = .ok c ∧ c ∈ d.values ∧
+      d.get? (if u ∈ d.keys then u else near d u) = some c := by
+  by_cases hu : u ∈ d.keys
+  · obtain ⟨v, hv⟩ := Dict.get?_isSome_of_mem_keys d u hu
+    refine ⟨v, lookupC_seen near d u v hv, ?_, by simp [hu, hv]⟩
+    exact List.mem_map.mpr ⟨(u, v), Dict.mem_of_get? d u v hv, rfl⟩
+  · obtain ⟨v, hv⟩ := Dict.get?_isSome_of_mem_keys d (near d u) hn
+    refine ⟨v, by simp [lookupC, Dict.get?_none d u hu, hv], ?_, by simp [hu, hv]⟩
+    exact List.mem_map.mpr ⟨(near d u, v), Dict.mem_of_get? d _ v hv, rfl⟩
+
+/-- `closest=True` agrees with `closest=False` on every array the latter accepts -/
+theorem plainC_of_plain (near : Dict κ β → κ → κ) (d : Dict κ β) (q : List κ) (r : List β)
+    (h : transformPlain d q = .ok r) : transformPlainC near d q = .ok r :=
+  mapE_mono _ _ (fun a b => lookupC_of_lookupE near d a b) q r h
+
+/-- the same for float arrays (NaN cells stay as they are) -/
+theorem labelsC_of_labels (near : Dict κ β → κ → κ) (d : Dict κ β) (q : List (Option κ))
+    (r : List (Option β)) (h : transformLabels d q = .ok r) : transformLabelsC near d q = .ok r := by
+  refine mapE_mono _ _ ?_ q r h
+  intro o b hb
+  cases o with
+  | none => exact hb
+  | some u =>
+    cases hl : lookupE d u with
+    | error e => simp [hl] at hb
+    | ok c =>
+      simp only [hl] at hb
+      simp only [lookupC_of_lookupE near d u c hl]
+      exact hb
+
+/-- with a search that returns keys, `closest=True` accepts every array; every output is a code of the
+dictionary, cell by cell the code of the label or of its nearest key -/
+theorem plainC_total (near : Dict κ β → κ → κ) (d : Dict κ β) (hn : ∀ u, near d u ∈ d.keys)
+    (q : List κ) :
+    ∃ r, transformPlainC near d q = .ok r ∧ (∀ c ∈ r, c ∈ d.values) ∧
+      r.map some = q.map (fun u => d.get? (if u ∈ d.keys then u else near d u)) := by
+  induction q with
+  | nil => exact ⟨[], by simp [transformPlainC, mapE], by simp, by simp⟩
+  | cons a as ih =>
+    obtain ⟨t, h1, h2, h3⟩ := ih
+    obtain ⟨c, hc1, hc2, hc3⟩ := lookupC_total near d a (hn a)
+    simp only [transformPlainC] at h1 ⊢
+    refine ⟨c :: t, by simp [mapE, hc1, h1], ?_, by simp [h3, hc3]⟩
+    intro c' hc'
+    simp only [List.mem_cons] at hc'
+    rcases hc' with hc' | hc'
+    · rw [hc']; exact hc2
+    · exact h2 c' hc'
+
+end closest
+
 /-! ### fit produces a fitted dictionary, for every target list and every drawn permutation -/
 
 theorem fit_fitted {α : Type} [DecidableEq α] (y : List (Option α)) (lin : List Nat)
